@@ -123,6 +123,44 @@ def reviewedClassMutables : List ((Nat × Nat × Nat) × StateTag) :=
    ((k! "types.py", k! "DataType", k! "_exclude_fields"), .constantNeverMutated),
    ((k! "types.py", k! "DataType", k! "_pass_fields"), .constantNeverMutated)]
 
+inductive WriteTag where
+  | fieldOfOtherClass         -- the attribute belongs to another class that happens to use the same field name
+  | rebindsFieldOfOtherClass  -- assigns a fresh object to a field of another class; the shared instance is not touched
+  | dynamicOnOtherObject      -- setattr with a computed name on an object that is not an instance of a shared class
+  deriving Repr, DecidableEq
+
+/-- the classes whose instances are process-wide (memoised results / module-level constants) that the review knows about -/
+def knownSharedClasses : List Nat := [k! "Import"]
+
+/-- every store to an attribute named like a field of a shared class (`Import.from_/import_/alias/reference_path`) and every
+dynamic `setattr`: ((file, function, target), tag). None of them writes INTO a shared instance — which is the premise of
+`cache_transparent` (a cache only ever holds pairs `(x, f x)`; mutating a cached value in place breaks it). Checked at run
+time as well: every module-level `Import` object is compared before/after the generate() calls of each batch process. -/
+def reviewedMemoWrites : List ((Nat × Nat × Nat) × WriteTag) :=
+  [
+   -- debugging decorator: setattr on a class being decorated (pysnooper), never an Import
+   ((k! "__init__.py", k! "snooper_to_methods.inner", k! "cls"), .dynamicOnOtherObject),
+   -- setattr on the Config instance of this run
+   ((k! "__main__.py", k! "Config.merge_args", k! "self"), .dynamicOnOtherObject),
+   -- the per-run Imports collection has its own `alias` dict
+   ((k! "imports.py", k! "Imports.__init__", k! "self.alias"), .fieldOfOtherClass),
+   -- enum Member
+   ((k! "model/enum.py", k! "Member.__init__", k! "self.alias"), .fieldOfOtherClass),
+   -- REBINDS DataType.import_ to a NEW Import(..., alias=…); the shared Import object is left alone
+   ((k! "parser/base.py", k! "Parser.__alias_shadowed_imports", k! "model_field.data_type.import_"), .rebindsFieldOfOtherClass),
+   -- DataModelFieldBase.alias
+   ((k! "parser/base.py", k! "Parser.__change_field_name", k! "field.alias"), .fieldOfOtherClass),
+   -- DataType.alias
+   ((k! "parser/base.py", k! "Parser.__change_from_import", k! "data_type.alias"), .fieldOfOtherClass),
+   -- DataType.alias
+   ((k! "parser/base.py", k! "Parser.__collapse_root_models", k! "d.alias"), .fieldOfOtherClass),
+   -- DataType.alias
+   ((k! "parser/base.py", k! "Parser.__set_default_enum_member", k! "enum_member.alias"), .fieldOfOtherClass),
+   -- DataType.alias
+   ((k! "parser/base.py", k! "Parser.__set_default_enum_member", k! "enum_member_.alias"), .fieldOfOtherClass),
+   -- setattr on the Reference/DataType being constructed (Import does not derive from reference._BaseModel)
+   ((k! "reference.py", k! "_BaseModel.__init__", k! "self"), .dynamicOnOtherObject)]
+
 /-! ### generic definitions used by the lemmas -/
 
 /-- a memo table and lookup-or-compute (`functools.lru_cache` without eviction) -/
